@@ -91,9 +91,9 @@ def compare_context(got, exp, rep, i, chosen):
     k = exp["k"]
     if k == "dense":
         if not isinstance(got, primitives.Dense) or isinstance(got, str): return ("layout", None, got)
-        if len(got) != len(exp["v"]): return ("layout", None, list(got))
-        for j, e in enumerate(exp["v"]):
+        for j, e in enumerate(exp["v"][:len(got)]):
             if not cell_ok(got[j], e, rep, i, chosen, j): return (j, e, got[j])
+        if len(got) != len(exp["v"]): return ("layout", None, list(got))
         return None
     if k == "sparse":
         if not isinstance(got, primitives.Sparse): return ("layout", None, got)
@@ -164,17 +164,6 @@ def feature_of(case, pos):
     return {"a": 0, "b": 1}.get(pos)
 
 
-def signature(case, rep, api, kind, detail):
-    """A short stable class name: filter : layout : api : what went wrong : which kind of input."""
-    f, shape = case["f"], case["shape"]
-    par = case["par"]
-    if f == "scale":
-        p = "%s/%s" % (par["sh"]["k"] if par["sh"]["k"] != "const" else "num", par["sc"]["k"] if par["sc"]["k"] != "const" else "num")
-    else:
-        p = "+".join(par["stats"]) if len(par["stats"]) > 1 else par["stats"][0]
-    return f, shape, api, kind, detail, p
-
-
 def replay(ctx, case, rep, api):
     """Returns None or (kind, detail, text)."""
     rows = make_rows(case, rep)
@@ -191,7 +180,12 @@ def replay(ctx, case, rep, api):
         if set(o.keys()) != set(r.keys()):
             return ("fields", "keys", None, "interaction %d has fields %s, had %s" % (i, sorted(o.keys()), sorted(r.keys())))
         for k in r:
-            if k != "context" and not (o[k] == r[k] and type(o[k]) == type(r[k])):
+            if k == "context": continue
+            same = o[k] == r[k] and type(o[k]) == type(r[k])
+            if not same and k == "rewards" and api != "filter" and callable(o[k]):
+                # the Environments pipeline ends with Finalize, which wraps the reward list (not the filter under test)
+                same = [o[k](a) for a in r["actions"]] == r[k]
+            if not same:
                 return ("fields", k, None, "interaction %d: field %r changed from %r to %r" % (i, k, r[k], o[k]))
         d = compare_context(o["context"], case["expected"][i], rep, i, chosen)
         if d is not None:
@@ -201,51 +195,93 @@ def replay(ctx, case, rep, api):
     return None
 
 
+def run_tlc(ctx, fam, rows1, rows2):
+    sub = {'Family = "scale1"': 'Family = "%s"' % fam, "MaxRows = 3": "MaxRows = %d" % rows1, "MaxRows2 = 2": "MaxRows2 = %d" % rows2}
+    cfg = tracecheck._cfg("ScaleImpute.cfg", sub, ctx.scratch, "si_%s.cfg" % fam)
+    return tlc.run("ScaleImpute", cfg, os.path.join(ctx.scratch, fam), workers=ctx.pick(4, 8), timeout=1500, heap=ctx.pick("4g", "12g"))
+
+
 def run(ctx):
     from ..core import MachineryError
-    import collections
+    from concurrent.futures import ThreadPoolExecutor
     rows1, rows2 = ctx.pick((3, 2), (4, 3))
-    reps = ctx.pick(("int", "float"), ("int", "float", "alt"))
     total = 0
-    raw = collections.Counter(); rawex = {}
-    for fam in FAMILIES:
-        sub = {'Family = "scale1"': 'Family = "%s"' % fam, "MaxRows = 3": "MaxRows = %d" % rows1, "MaxRows2 = 2": "MaxRows2 = %d" % rows2}
-        cfg = tracecheck._cfg("ScaleImpute.cfg", sub, ctx.scratch, "si_%s.cfg" % fam)
-        r = tlc.run("ScaleImpute", cfg, ctx.scratch, workers=16, timeout=1500, heap="16g")
-        ctx.add_tlc("ScaleImpute:" + fam, r)
-        if r.violations:
-            raise MachineryError("the oracle violates its own invariant %s in family %s: %s" % (r.violations[0]["name"], fam, r.violations[0]["trace"][:6]))
-        cases = [j for j in r.json if isinstance(j, dict) and "expected" in j]
-        if len(cases) * 2 != r.distinct: raise MachineryError("family %s: %d cases printed for %d states" % (fam, len(cases), r.distinct))
-        del r
-        for c in cases: c["_k"] = json.dumps(c, sort_keys=True)
-        cases.sort(key=lambda c: (len(c["given"]), len(c["cols"]), c["_k"]))
-        ctx.sample({k: v for k, v in cases[len(cases) // 2].items() if k != "_k"}, limit=len(FAMILIES))
-        for c in cases:
-            key = c.pop("_k")
-            apis = ("filter", "env") if len(c["par"].get("stats", [1])) == 1 else ("envlist",)
-            for api in apis:
-                for rep in reps:
-                    if rep != "int" and not any(x["t"] == "num" for col in c["cols"] for x in col): continue
-                    ctx.case(key); ctx.traces += 1
-                    res = replay(ctx, c, rep, api)
-                    if res is None: continue
-                    kind, detail, at, text = res
-                    sig = classify(c, rep, api, kind, detail, at)
-                    raw[sig] += 1
-                    what = "%s %s(%s, using=%r) [%s, numbers as %s]: %s" % (c["shape"], c["f"], json.dumps(c["par"]), c["using"] or None, api, rep, text)
-                    ctx.violation(sig, what, dict(case=c, rep=rep, api=api))
-        total += len(cases)
+    with ThreadPoolExecutor(ctx.pick(6, 3)) as ex:          # the TLC runs are independent processes; results are consumed in a fixed order
+        futs = [(fam, ex.submit(run_tlc, ctx, fam, rows1, rows2)) for fam in FAMILIES]
+        for fam, fut in futs:
+            r = fut.result()
+            ctx.add_tlc("ScaleImpute:" + fam, r)
+            if r.violations:
+                raise MachineryError("the oracle violates its own invariant %s in family %s: %s" % (r.violations[0]["name"], fam, r.violations[0]["trace"][:6]))
+            cases = [j for j in r.json if isinstance(j, dict) and "expected" in j]
+            if len(cases) * 2 != r.distinct or not cases: raise MachineryError("family %s: %d cases printed for %d states" % (fam, len(cases), r.distinct))
+            r.json = None; r.out = None
+            for c in cases: c["_k"] = json.dumps(c, sort_keys=True)
+            cases.sort(key=lambda c: (len(c["given"]), len(c["cols"]), c["_k"]))
+            ctx.sample({k: v for k, v in cases[len(cases) // 2].items() if k != "_k"}, limit=len(FAMILIES))
+            # numbers as ints and as floats (thorough: also alternating); quick keeps the float replay for Scale's filter only
+            if ctx.quick: reps = {"filter": ("int", "float") if fam.startswith("scale") else ("int",), "env": ("int",), "envlist": ("int",)}
+            else: reps = {a: ("int", "float", "alt") for a in ("filter", "env", "envlist")}
+            for c in cases:
+                key = c.pop("_k")
+                has_num = any(x["t"] == "num" for col in c["cols"] for x in col)
+                apis = ("filter", "env") if len(c["par"].get("stats", [1])) == 1 else ("envlist",)
+                for api in apis:
+                    for rep in reps[api]:
+                        if rep != "int" and not has_num: continue
+                        ctx.case(key); ctx.traces += 1
+                        res = replay(ctx, c, rep, api)
+                        if res is None: continue
+                        kind, detail, at, text = res
+                        if kind == "raises" and api == "env":     # the pipeline buffers: locate the failing interaction with the bare filter
+                            loc = replay(ctx, c, rep, "filter")
+                            if loc is not None and loc[0] == "raises": at = loc[2]
+                        sig = classify(c, rep, api, kind, detail, at)
+                        what = "%s %s(%s, using=%r) [%s, numbers as %s]: %s" % (c["shape"], c["f"], json.dumps(c["par"]), c["using"] or None, api, rep, text)
+                        ctx.violation(sig, what, dict(case=c, rep=rep, api=api))
+            total += len(cases)
     ctx.exhaustive = True
     ctx.extra["spec_cases"] = total
-    ctx.extra["bounds"] = dict(rows_one_feature=rows1, rows_two_features=rows2, numeric_representations=list(reps))
+    ctx.extra["bounds"] = dict(rows_one_feature=rows1, rows_two_features=rows2)
     ctx.assumptions += [
         "floats: produced values are compared with the spec's exact rationals to 1e-9 (relative); rounding, overflow and values within 1e-6 of a zero spread are not explored",
-        "outside the domain (spec InDomain): a feature with no non-missing value in the window, std over < 2 values, a non-zero shift for sparse contexts, NaN in Impute data, indicator=True with a missing value in the window of a feature that is not imputable, lists of statistics together with indicator=True",
+        "outside the domain (spec InDomain): a feature with no non-missing value in the window, std over < 2 values, a non-zero shift for sparse contexts, NaN in Impute data, indicator=True with a missing value in the window of a feature that is not imputable, median over a window holding only strings, lists of statistics together with indicator=True",
         "two-feature data sets pair an arbitrary column with one of four fixed companion columns (both orders)",
+        "through Environments.scale / impute the trailing Finalize step of the pipeline is trusted (it wraps the reward list)",
     ]
 
 
 def classify(case, rep, api, kind, detail, at):
-    f, shape = case["f"], case["shape"]
-    return "%s:%s:%s:%s" % (f, shape, api, kind)
+    """A short stable name for the class of a failing case.  The classes follow the places in the code that can
+    fail independently (the shared fitting helpers, the per-layout apply loops, Environments.impute), so that one
+    known defect maps to one signature and anything else keeps its own."""
+    f, shape, par, cols = case["f"], case["shape"], case["par"], case["cols"]
+    generic = "%s:%s:%s%s" % (f, shape, kind, ":" + detail if kind == "raises" else "")
+    traits = [col_traits(case, j) for j in range(len(cols))]
+    if kind == "differs":
+        pos, e, g, i = detail
+        j = feature_of(case, pos)
+        blamed = [j] if j is not None else list(range(len(cols)))
+    else:
+        blamed = list(range(len(cols))); j = None
+    if f == "scale":
+        if any("nan-in-window" in traits[b] for b in blamed): return "scale:nan-in-window"
+        if kind == "raises" and detail == "TypeError" and at is not None and at < len(cols[0]):
+            row = [c[at]["t"] for c in cols]                # the interaction that was being transformed
+            for t in row:
+                if t == "none": return "scale:%s:raises-on-missing" % shape
+                if t == "str": return "scale:%s:raises-on-string" % shape
+        if kind == "differs" and j is not None:
+            unscaled = is_num(g) and g == cell_py(cols[j][i], rep, i) if cols[j][i]["t"] == "num" else False
+            if unscaled and cols[j][0]["t"] == "none" and shape != "scalar": return "scale:%s:first-missing-unscaled" % shape
+            if unscaled and "key-absent-in-window" in traits[j]: return "scale:sparse:key-absent-in-window-unscaled"
+            if unscaled and par["sc"]["k"] == "maxabs" and rep != "int": return "scale:maxabs-int-shift-float-values"
+        return generic
+    stats = par["stats"]
+    if api == "envlist" and stats[0] != stats[1] and kind in ("differs", "raises"): return "impute:env-list-only-last-statistic"
+    if kind == "raises" and detail == "KeyError" and shape == "sparse": return "impute:sparse:raises-KeyError"
+    if kind == "differs":
+        first_missing = [b for b in blamed if cols[b][0]["t"] == "none"]
+        if first_missing and stats[-1] in ("mean", "median") and shape != "scalar":
+            if j is None or (g is None and cols[j][i]["t"] == "none"): return "impute:%s:first-missing-not-imputed" % shape
+    return generic
